@@ -1,12 +1,13 @@
 """C16 -- scheduler core (work in progress: metadata filled in below)."""
-from props.common import contract_tasks, lemma_tasks, TRUSTED_CORE
+from props.common import other_tasks, contract_tasks, lemma_tasks, TRUSTED_CORE
 
 PROPERTY = "C16"
 
 
 def tasks(tier):
     return (contract_tasks("contracts.scheduler", "C16", tier=tier) + contract_tasks("contracts.sim_process", "C16", tier=tier)
-            + contract_tasks("contracts.progress", "C16", tier=tier) + lemma_tasks("contracts.progress", "C16"))
+            + contract_tasks("contracts.progress", "C16", tier=tier) + lemma_tasks("contracts.progress", "C16")
+            + contract_tasks("contracts.connect", "C16", tier=tier) + other_tasks("contracts.dataplane_bounded", "C16", "bounded"))
 
 
 TRUSTED_BASE = TRUSTED_CORE
